@@ -18,7 +18,8 @@ def table (_ : Json) : Except String Json := do
     (k, Json.mkObj [("visit", jstrs v), ("inline", jstrs i)]))
   pure (Json.mkObj [("table", Json.mkObj rows), ("emitted", jstrs Gen.emitted)])
 
-def enumT : Enumerator.Tables := ⟨Gen.romanNumerals, Gen.enumSequences, Gen.converterHandlers⟩
+def romanR : Enumerator.Roman := ⟨Gen.romanMap, Gen.romanMax⟩
+def enumT : Enumerator.Tables := ⟨romanR, Gen.enumSequences, Gen.converterHandlers⟩
 
 def jerr (e : String) : Json := Json.mkObj [("err", Json.str e)]
 
@@ -31,15 +32,15 @@ def enumOp (j : Json) : Except String Json := do
     | .ok (s, o) => pure (Json.mkObj [("seq", Json.str s), ("ordinal", match o with | some n => Json.num (JsonNumber.fromNat n) | none => Json.null)])
     | .error e => pure (jerr e.name)
   else if what == "to_roman" then
-    match Enumerator.toRoman Gen.romanNumerals (← nat j "n") with
+    match Enumerator.toRoman romanR (← nat j "n") with
     | .ok s => pure (Json.mkObj [("ok", Json.str (String.ofList s))])
     | .error e => pure (jerr e.name)
   else if what == "from_roman" then
-    match Enumerator.fromRoman Gen.romanNumerals (← str j "s").toList with
+    match Enumerator.fromRoman romanR (← str j "s").toList with
     | .ok n => pure (Json.mkObj [("ok", Json.num (JsonNumber.fromNat n))])
     | .error e => pure (jerr e.name)
   else if what == "make" then
-    match Enumerator.makeEnumerator Gen.romanNumerals (← nat j "ordinal") (← str j "seq") with
+    match Enumerator.makeEnumerator romanR (← nat j "ordinal") (← str j "seq") with
     | .ok (some s) => pure (Json.mkObj [("ok", Json.str (String.ofList s))])
     | .ok none => pure (Json.mkObj [("ok", Json.null)])
     | .error e => pure (jerr e.name)
